@@ -164,6 +164,14 @@ def run(ctx):
                       'with a cooling ratio r the factor is %s, expected 1 - r' % got.canon()[:200])
             n_formula += 1
         elif fam['family'].get('kt_finish') == 'Some':
+            if fam['family'].get('kt_ratio') != 'None' and not got.is_const_like():
+                # this path never asked whether a ratio was given: it also serves configurations with a ratio, and for those
+                # the factor must be 1 - kt_ratio (the ratio has precedence over the finishing temperature)
+                rep.fail('R2', 'factor:kt_ratio=Some', where(bb),
+                         'a configuration with both kt_ratio and kt_finish reaches the factor %s: the given ratio is ignored '
+                         '(the property requires 1 - kt_ratio whenever a ratio is given)' % got.canon()[:160])
+                n_formula += 1
+                continue
             # degenerate arms (kt_start = 0, no loops) are not bound by the defining equation
             env = {'self.kt_start': F('ps', '1', 'pb'), 'self.kt_finish#Some.0': F('ps', '1', 'pb'),
                    'self.steps': IVL(1, 2 ** 64 - 1), 'self.inner_steps': IVL(1, 2 ** 64 - 1)}
